@@ -101,6 +101,36 @@ def directed_repin(rnd):
     return p
 
 
+def directed_rootcycle(rnd):
+    """Directed family: the root package lies on a cycle and gets two requirements, one of which admits
+    prereleases; a third package (the other root of the C05 harness, parameter alt) reaches the same two
+    requirement texts; the root package has a second, higher version."""
+    p = skeleton2(rnd, cyc=0.0)
+    for k in list(p):
+        if k.endswith("t") and (k.startswith("p") or k.startswith("r") or k.startswith("q")):
+            p[k] = 0
+    p["np"] = 3
+    p["rv2"] = 1
+    a, b, c = rnd.sample([1, 2, 3], 3)
+
+    def put(tag, t, r, c_, m=0, e=0):
+        p.update({tag + "t": t, tag + "r": r, tag + "c": c_, tag + "m": m, tag + "e": e})
+    put("r0", a, 0, 1)
+    put("r1", b, 0, 1)
+    for x in (a, b, c):
+        p["nv%d" % (x - 1)] = 1
+        p["mj%d0" % (x - 1)], p["pr%d0" % (x - 1)] = 1, 0
+    pre, plain = rnd.choice([8, 8, 11]), rnd.choice([2, 2, 0, 7, 9, 4])
+    sym = rnd.random() < 0.5
+    put("p%d0s0" % (a - 1), 4, pre, 0 if sym else (1 if pre == 8 else 2))
+    put("p%d0s0" % (b - 1), 4, plain, 0 if sym else (2 if plain == 7 else 1))
+    put("p%d0s0" % (c - 1), a, 0, 1)
+    put("p%d0s1" % (c - 1), b, 0, 1)
+    # entries are listed root, r 2.0, then the versions of a, b, c in package order: one version each
+    p["alt"] = 1 + (c - 1)
+    return p
+
+
 def run(tier):
     base = dict(unwind=120, timeout_s=600 if tier == "quick" else 3000, summarise=SUM, max_witnesses=1, witness_every=500, panic_is_violation=True)
     jobs = []
@@ -141,6 +171,8 @@ def run(tier):
         jobs.append(dict(rbase, harness="VerifC08Resolve2", params=skeleton2(rnd2, cyc=0.5 if i % 2 else 0.15)))
     for i in range(60 if q else 600):
         jobs.append(dict(rbase, harness="VerifC08Resolve2", params=directed_repin(rnd2)))
+    for i in range(20 if q else 200):
+        jobs.append(dict(rbase, harness="VerifC08Resolve2", params=directed_rootcycle(rnd2)))
     lemmas = [j for j in jobs if not j["harness"].startswith("VerifC08Resolve")]
     whole = [j for j in jobs if j["harness"].startswith("VerifC08Resolve")]
     return run_property("C08", tier, [Group("rpypi", lemmas, files=["c05.go", "c08.go", "c08r.go"]),
